@@ -1,12 +1,26 @@
 import Driver.Common
 import Driver.C07
+import Driver.C08
+import Driver.C16
+import Driver.C03
+import Driver.C14
+import Driver.C17
 
 open Fontc Fontc.Driver
 
-/-- stream name ↦ handler. One line per stream. -/
-def handlers : List (String × Handler) := [
-  ("c07", C07.handle)
-]
+/-- stream name ↦ handler. One `|>.cons` line per stream (append new lines at the end of the chain). -/
+def handlers : List (String × Handler) :=
+  ([] : List (String × Handler))
+  |>.cons ("c07", C07.handle)
+  |>.cons ("c03e2e", C03.handle)
+  |>.cons ("c04e2e", C03.handle)
+  |>.cons ("c14names", C14.handleNames)
+  |>.cons ("c14paths", C14.handlePaths)
+  |>.cons ("c14emit", C14.handleEmit)
+  |>.cons ("c16", C16.handle)
+  |>.cons ("c08", C08.handle)
+  |>.cons ("c08mal", C08.handle)
+  |>.cons ("c17", C17.handle)
 
 def processLine (line : String) : String :=
   match Sexp.parse line with
